@@ -103,15 +103,31 @@ func build(engine, tmp string) (string, error) {
 		args = append(args, "-modfile="+filepath.Join(tmp, "alt.mod"))
 	}
 	args = append(args, pkg)
-	cmd := exec.Command("go1.26.8", args...)
-	cmd.Dir = filepath.Join(srcDir, "sim")
-	cmd.Env = goEnv()
-	b, err := cmd.CombinedOutput()
+	run := func() ([]byte, error) {
+		cmd := exec.Command("go1.26.8", args...)
+		cmd.Dir = filepath.Join(srcDir, "sim")
+		cmd.Env = goEnv()
+		return cmd.CombinedOutput()
+	}
+	b, err := run()
 	if err != nil {
+		// the optional statement-level instrumentation of files outside yieldFiles must never cost a check:
+		// if the rewritten extras do not compile, build once more with only the listed files rewritten
+		if _, oerr := makeOverlayOpt(tmp, false); oerr == nil {
+			if b2, err2 := run(); err2 == nil {
+				extrasDisabled = true
+				return out, nil
+			} else {
+				b = append(b, b2...)
+			}
+		}
 		return "", fmt.Errorf("build failed: %v\n%s", err, b)
 	}
 	return out, nil
 }
+
+// extrasDisabled: the optional instrumentation was dropped for this build (reported in the evidence).
+var extrasDisabled bool
 
 type lineResult struct {
 	world.Result
@@ -950,6 +966,7 @@ func writeEvidence(id, tier string, master uint64, a *agg, spec propSpec, wall, 
 			"components":           componentsOf(spec),
 			"runs_by_engine":       engineRuns,
 			"deep_zone_runs":       a.deep,
+			"optional_instrumentation_dropped": extrasDisabled,
 			"toolchain":            "go1.26.8 (testing/synctest, testing/cryptotest); /repo built with -tags verif",
 		},
 		"assumptions": []string{
